@@ -296,6 +296,25 @@ pub fn check_spans(rep: &mut Report, input: &[u8], q: &Q, tag: &str) -> bool {
             }
         }
     }
+    // owned copies carry the same spans as the datum they were copied from
+    for (i, d) in ds.iter().enumerate() {
+        for (how, copy) in [("Datum::clone", d.clone()), ("Datum::from(Ref)", Datum::from(d.as_ref()))] {
+            rep.eval();
+            let sp = collect_spans(&copy);
+            if sp != base[i] || copy.value() != d.value() {
+                let mut msg = String::from("different shape");
+                for (x, y) in base[i].iter().zip(sp.iter()) {
+                    if x != y {
+                        msg = format!("the parsed datum reports {} where its copy reports {}", spos(*x), spos(*y));
+                        break;
+                    }
+                }
+                rep.violation("copy", format!("C11:copy-spans-differ:{}", how), format!("input {:?} with {}: {} of datum #{}: {}", show(input), q.describe(), how, i, msg), replay.clone());
+                return true;
+            }
+            rep.count("spans:copies-equal");
+        }
+    }
     true
 }
 
